@@ -46,9 +46,18 @@ def hash_definition(func: Callable) -> str:
     # Prefer source code — most precise, captures comments and formatting
     try:
         source = inspect.getsource(func)
-        return hashlib.sha256(source.encode()).hexdigest()
     except (OSError, TypeError):
-        pass
+        source = None
+    if source is not None:
+        h = hashlib.sha256(source.encode())
+        # Functions made by one factory share their source text and differ only
+        # in what they captured: the captured values are part of the definition.
+        for cell in getattr(func, "__closure__", None) or ():
+            try:
+                h.update(repr(cell.cell_contents).encode())
+            except ValueError:
+                h.update(b"<empty_cell>")
+        return h.hexdigest()
 
     # Bytecode fallback — for exec/eval/Jupyter-defined functions
     code = getattr(func, "__code__", None)
